@@ -466,13 +466,61 @@ Proof.
   destruct Hs as (_ & Pv & _). apply Permutation_map. exact Pv.
 Qed.
 
-Theorem required_invariant c c' : cfg_equiv c c' -> required_keys c = required_keys c'.
+Lemma required_global_perm c c' : cfg_equiv c c' -> Permutation (required_global c) (required_global c').
 Proof.
-  intros E. unfold required_keys. apply ksort_canonical; [unfold sid; auto|].
-  apply dedup_perm. apply filter_perm.
+  intros E. unfold required_global. apply filter_perm.
   - intros x. f_equal. apply mem_str_perm. apply flat_map_perm2.
     eapply Forall2_imp; [|exact E]. intros a b. apply node_created_perm.
   - apply flat_map_perm2. eapply Forall2_imp; [|exact E]. intros a b. apply node_required_perm.
+Qed.
+
+Lemma mem_str_app x a b : mem_str x (a ++ b) = mem_str x a || mem_str x b.
+Proof. induction a as [|y a IH]; simpl; auto. rewrite IH, orb_assoc. reflexivity. Qed.
+
+Lemma mem_str_filter (p : string -> bool) y l : mem_str y (filter p l) = mem_str y l && p y.
+Proof.
+  induction l as [|x r IH]; simpl; auto.
+  destruct (String.eqb y x) eqn:E.
+  - apply String.eqb_eq in E. subst x. destruct (p y) eqn:Py; simpl.
+    + rewrite String.eqb_refl. reflexivity.
+    + rewrite IH. rewrite ?Py. rewrite ?andb_false_r. reflexivity.
+  - destruct (p x); simpl; [rewrite E|]; simpl; exact IH.
+Qed.
+
+Definition st_equiv (a b : list string * list string * list string) : Prop :=
+  match a, b with
+  | (o, d, r), (o', d', r') =>
+      (forall x, mem_str x o = mem_str x o') /\ (forall x, mem_str x d = mem_str x d') /\ Permutation r r'
+  end.
+
+Lemma req_step_equiv a b n n' : st_equiv a b -> node_equiv n n' -> st_equiv (req_step a n) (req_step b n').
+Proof.
+  destruct a as [[o d] r], b as [[o' d'] r']. intros (Ho & Hd & Hr) E.
+  pose proof (node_required_perm n n' E) as Pr. pose proof (node_created_perm n n' E) as Pc.
+  destruct E as (_ & _ & Hi & _). unfold req_step, st_equiv. repeat split.
+  - intros x. rewrite !mem_str_app, Ho, (mem_str_perm x _ _ Pc). reflexivity.
+  - intros x. rewrite !mem_str_app, !mem_str_filter, Hd, Hi, (mem_str_perm x _ _ Pc). reflexivity.
+  - apply Permutation_app; auto. apply filter_perm; auto.
+    intros x. rewrite Ho, Hd. reflexivity.
+Qed.
+
+Lemma required_ordered_perm c c' : cfg_equiv c c' -> Permutation (required_ordered c) (required_ordered c').
+Proof.
+  intros E. unfold required_ordered.
+  assert (G : forall a b, st_equiv a b -> st_equiv (fold_left req_step c a) (fold_left req_step c' b)).
+  { induction E as [|n n' c c' En Ec IH]; intros a b Hab; simpl; auto.
+    apply IH. apply req_step_equiv; auto. }
+  specialize (G ([], [], []) ([], [], [])).
+  destruct (fold_left req_step c ([], [], [])) as [[o d] r], (fold_left req_step c' ([], [], [])) as [[o' d'] r'].
+  apply G. repeat split; auto.
+Qed.
+
+Theorem required_invariant c c' : cfg_equiv c c' -> required_keys c = required_keys c'.
+Proof.
+  intros E. unfold required_keys. apply ksort_canonical; [unfold sid; auto|].
+  apply dedup_perm. destruct required_in_node_order.
+  - apply required_ordered_perm; auto.
+  - apply required_global_perm; auto.
 Qed.
 
 Theorem ids_invariant c c' : cfg_wf strict c = true -> cfg_equiv c c' -> spec_ids U5 H c = spec_ids U5 H c'.
@@ -796,7 +844,7 @@ Qed.
 Lemma sem_entries_nodesems : forall c1 c2 k,
   map canon (sem_entries U5 H k c1) = map canon (sem_entries U5 H k c2) -> node_sems H c1 = node_sems H c2.
 Proof.
-  induction c1 as [|n c1 IH]; intros [|m c2] k E; cbn [sem_entries map node_sems] in *; try discriminate; auto.
+  induction c1 as [|n c1 IH]; intros [|m c2] k E; cbn [sem_entries map node_sems] in *; try discriminate E; auto.
   assert (E1 := f_equal (@hd json JNull) E). assert (E2 := f_equal (@tl json) E).
   cbn [hd tl] in E1, E2. f_equal.
   - eapply sem_entry_nodesem. exact E1.
